@@ -464,12 +464,13 @@ def probes(ctx):
              "value_to_satoshi('20457139967440.33 µBTC') = 2045713996744032: amounts >= 10^15 smallest units are off "
              "by one unit for 0.1-3 % of values in every denominator whose float constant is inexact (text is scaled "
              "as float(text) * den / 1e-8)"),
-            (F_FMT, {'kind': 'numeric', 'n': 2099999999999731, 'den': 'c', 'net': 'bitcoin', 'form': 'from_sat_den',
-                     'den_as': 'symbol'},
-             "Value.from_satoshi(2099999999999731, denominator='c').value_sat = 2099999999999730; likewise "
-             "from_satoshi(n).str(den, decimals) prints sub-unit float noise for n/msat/µsat denominators or surplus "
-             "decimals (e.g. '2099999999934465280 msatLTC' for 2099999999934465 units) which parses back one unit off; "
-             "amounts >= 10^15 only"),
+            (F_FMT, {'kind': 'format', 'n': 2099999999953437, 'den': 'µ', 'net': 'dogecoin', 'decimals': 2,
+                     'den_as': 'number'},
+             "Value.from_satoshi(2099999999953437, network='dogecoin').str(1e-06, decimals=2) = '20999999999534.38 "
+             "µDOGE' (one unit too much); str() divides floats, so for amounts >= 10^15 the text can be a unit off, and "
+             "with n/msat/µsat denominators or surplus decimals it carries sub-unit noise (e.g. '2099999999934465280 "
+             "msatLTC') that parses back one unit off; Value.from_satoshi(n, denominator=d).value_sat is off by one "
+             "the same way"),
             (F_DA, {'kind': 'parse', 'n': 1000000000, 'den': 'da', 'code': 'BTC', 'api': 'v2s'},
              "Value('1 daBTC') raises 'Currency symbol not recognised' (prefix 'd' is matched before 'da'), so the "
              "text produced by str('da') cannot be parsed back"),
